@@ -89,6 +89,13 @@ def _on_error_default(self, spec, info, ob):
 
 Family.on_error = _on_error_default
 Family.worker_extra = lambda self, spec, info, ob: None
+# the second tie (harness/crosscorr.py): documents of the whole-encoder correspondence class, judged where the real
+# text and the encoder model's text differ.  `cross_prepare` completes `info` with what the family's oracle needs
+# (None = the document is outside the family's domain), `cross_extra` is an additional observation compared between
+# the two texts.
+Family.cross = True
+Family.cross_prepare = lambda self, spec, info: info
+Family.cross_extra = lambda self, spec, info, ob: None
 Family.labels = lambda self, o: []        # extra input-distribution labels of one worker result (→ res.count)
 
 
@@ -161,6 +168,10 @@ def run_family(fam: Family, res: common.Result, build, rule, trusted, assume, ex
             else:
                 for m in fam.extra_model_check(o["spec"], o["info"], o, drv[i]):
                     res.disagree(case, m)
+    if fam.cross:
+        from . import crosscorr
+
+        crosscorr.run_cross(fam, res)
     return common.finish(res, build, rule, trusted, assume, explanation=explanation,
                          known_lines=[known_lines[k] for k in sorted(known_lines)])
 
@@ -258,6 +269,10 @@ def replay_family(fam: Family, payload) -> int:
         if "spec" not in case:
             print(f"VIOLATION property={fam.prop} replay=<given> no-failing-input-found")
             return 1
+    if case.get("cross"):
+        from . import crosscorr
+
+        return crosscorr.replay_cross(fam, case)
     o = common.pool_map(_worker, [(fam, 0, 0, "quick", dict(spec=case["spec"], info=case["info"],
                                                             history=case.get("history")))] * 4)[0]
     if "machinery" in o:
